@@ -482,7 +482,7 @@ def hist_fn(case):
         if sum(tot.values()) > 1.0:
             break
         hist.append(op)
-    rthist.run_history(r, hist, lambda: hist_build(case), 'composition', extra_eval=_mix_eval)
+    rthist.run_history(r, hist, lambda: hist_build(case), 'composition', extra_eval=_mix_eval, as_numpy=bool(case.get('np')))
     if len(hist) < len(case['hist']):
         # the next update makes the traces exceed one: the live model must reject it as invalid
         live = hist_build(case)
@@ -558,4 +558,6 @@ def explore(ctx):
     hcases += [{'N': 3, 'hist': h, 'defaults': True} for h in hs if all(o[0] != 'N2_H2' for o in h) and len(h) <= 2]
     hcases += [{'N': 3, 'hist': h, 'intratio': True} for h in hs if len(h) <= 2]
     ctx.bounds.update(histories=len(hcases), history_depth=3 if ctx.tier == 'thorough' else 2)
+    # every single update once more with the value handed over as a numpy float64 scalar
+    hcases += [dict(c_, np=True) for c_ in hcases if len(c_['hist']) == 1]
     ctx.run_cases('hist_fn', hcases, phase='histories')
